@@ -1305,3 +1305,44 @@ def with_inv_establishment(fn):
 
 for _p in ('C02', 'C03', 'C04', 'C09'):
     PROPS[_p] = with_inv_establishment(PROPS[_p])
+
+
+def c16_then_cancel(sc, qreq, qpath, req2, p2):
+    """the amounts an order query reported are the amounts the owner's cancel, issued next with the same id, returns"""
+    ti = sc.ti
+    r = qpath.resp
+    val = r.fields[0].a[0] if isinstance(r, Adt) and r.ty == 'Binary' and isinstance(r.fields[0], Opaque) and r.fields[0].tag == 'Json' else None
+    if val is None:
+        return
+    trs = transfers(p2)
+    same_id = req2['id'] == qreq['id']
+    if val.ty == 'AskOrderV1':
+        a = ask_view(ti, val)
+        who = req2['sender'] == a['owner']
+        goal = paid(trs, a['owner'], a['base']) >= a['size']
+        if a['cls'] == 'Ready':
+            both = z3.And(a['owner'] == a['approver'], a['base'] == a['cb_denom'])
+            goal = z3.If(both, paid(trs, a['owner'], a['base']) == a['size'] + a['cb_amount'], z3.And(paid(trs, a['owner'], a['base']) >= a['size'], paid(trs, a['approver'], a['cb_denom']) >= a['cb_amount']))
+        yield refute('cancel_returns_what_the_query_reported', [same_id, who, z3.Not(goal)], order='ask', cls=a['cls'])
+    elif val.ty == 'BidOrderV3':
+        b = bid_view(ti, val)
+        who = req2['sender'] == b['owner']
+        yield refute('cancel_returns_what_the_query_reported', [same_id, who, paid(trs, b['owner'], b['quote_denom']) != b['rem_q'] + b['rem_f']], order='bid', fee=b['hasfee'])
+
+
+def c15_then_cancel(fol, sc, req2, p2):
+    """an accepted owner-cancel of a converted legacy bid returns the original quote and fee minus the sums over its event log, and removes it"""
+    ti = sc.ti
+    trs = transfers(p2)
+    for i, e in enumerate(sc.world.maps['bid']):
+        if e.fmt != 'BidOrderV2':
+            continue
+        rec = sc.bids[i]
+        old = e.val
+        sb, sq, sf = v2_sums(rec)
+        g = lambda n: ti.get(old, n)
+        quote, fee, owner = g('quote'), g('fee'), uv(g('owner'))
+        remaining = uv(quote.fields[1]) - sq + ((uv(fee.fields[0].fields[1]) - sf) if fee.variant == 'Some' else 0)
+        m = z3.And(req2['id'] == e.key)
+        post = p2.world.maps['bid'][i]
+        yield refute('converted_bid_cancels_like_a_native_one', [m, z3.Not(z3.And(paid(trs, owner, quote.fields[0]) == remaining, z3.Not(post.present)))], events=len(rec['events']))
